@@ -279,7 +279,7 @@ def reopen (s : Sys) (freshProcess : Bool) : Sys × Out :=
   let dels := s.recs.filter (fun r => ¬ keep.any (fun w => w.cid = r.cid))
   let maxSeq := keep.foldl (fun m v => max m v.seq) 1
   let counter0 := if freshProcess then 0 else s.counter
-  let counter := if counter0 = 0 then maxSeq else counter0
+  let counter := max counter0 maxSeq      -- sequence.Set raises the counter, never lowers it
   let st : Store := fun k => (winner k).toList
   let s' : Sys := { s with counter := counter, main := st, all := st, txs := fun _ => none, reg := [],
                            pending := if dels.isEmpty then [] else [dels] }
